@@ -41,6 +41,8 @@ pub enum Op {
         argv: Vec<Tok>,
         out_fault: StreamFault,
         err_fault: StreamFault,
+        /// also spawn the unhooked executable as a real child process and compare
+        real: bool,
     },
 }
 
@@ -506,12 +508,14 @@ impl Op {
                 argv,
                 out_fault,
                 err_fault,
+                real,
             } => J::obj(vec![
                 ("op", J::s("launch")),
                 ("p", J::Int(*p as i64)),
                 ("argv", toks_to_j(argv)),
                 ("stdout_fault", fault_to_j(out_fault)),
                 ("stderr_fault", fault_to_j(err_fault)),
+                ("real_child", J::Bool(*real)),
             ]),
         }
     }
@@ -553,6 +557,7 @@ impl Op {
                 argv: toks_from(j.req("argv")?)?,
                 out_fault: fault_from(j.get("stdout_fault"))?,
                 err_fault: fault_from(j.get("stderr_fault"))?,
+                real: matches!(j.get("real_child"), Some(J::Bool(true))),
             },
             o => return Err(format!("bad op {}", o)),
         })
